@@ -208,14 +208,14 @@ pub trait ExAeadInPlace: AeadCore {
     fn encrypt_in_place_detached(&self, nonce: &aead::Nonce<Self>, associated_data: &[u8], buffer: &mut [u8]) -> (r: Result<aead::Tag<Self>, aead::Error>)
         ensures
             final(buffer)@.len() == old(buffer)@.len(),
-            r is Ok <==> aead_seal_spec::<Self>(self, nonce.gv(), associated_data@, old(buffer)@) is Some,
-            r is Ok ==> final(buffer)@ == aead_seal_spec::<Self>(self, nonce.gv(), associated_data@, old(buffer)@).unwrap().0
-                     && r.unwrap().gv() == aead_seal_spec::<Self>(self, nonce.gv(), associated_data@, old(buffer)@).unwrap().1;
+            r is Ok <==> aead_seal_spec::<Self>(aead_key_of::<Self>(self), nonce.gv(), associated_data@, old(buffer)@) is Some,
+            r is Ok ==> final(buffer)@ == aead_seal_spec::<Self>(aead_key_of::<Self>(self), nonce.gv(), associated_data@, old(buffer)@).unwrap().0
+                     && r.unwrap().gv() == aead_seal_spec::<Self>(aead_key_of::<Self>(self), nonce.gv(), associated_data@, old(buffer)@).unwrap().1;
     fn decrypt_in_place_detached(&self, nonce: &aead::Nonce<Self>, associated_data: &[u8], buffer: &mut [u8], tag: &aead::Tag<Self>) -> (r: Result<(), aead::Error>)
         ensures
             final(buffer)@.len() == old(buffer)@.len(),
-            r is Ok <==> aead_open_spec::<Self>(self, nonce.gv(), associated_data@, old(buffer)@, tag.gv()) is Some,
-            r is Ok ==> final(buffer)@ == aead_open_spec::<Self>(self, nonce.gv(), associated_data@, old(buffer)@, tag.gv()).unwrap();
+            r is Ok <==> aead_open_spec::<Self>(aead_key_of::<Self>(self), nonce.gv(), associated_data@, old(buffer)@, tag.gv()) is Some,
+            r is Ok ==> final(buffer)@ == aead_open_spec::<Self>(aead_key_of::<Self>(self), nonce.gv(), associated_data@, old(buffer)@, tag.gv()).unwrap();
 }
 #[verifier::external_trait_specification]
 pub trait ExKeyInit: KeySizeUser + Sized {
@@ -237,4 +237,22 @@ pub trait ExRngCore {
 pub trait ExCryptoRng: RngCore {
     type ExternalTraitSpecificationFor: CryptoRng;
 }
+}
+
+verus!{
+// ---------------------------------------------------------------- type-level side conditions
+// (each concrete algorithm type is shown to satisfy them: spec/lemmas.rs `suite_ok_*`)
+pub open spec fn aead_ok<A: crate::aead::Aead>() -> bool { 8 <= nn_of::<A::AeadImpl>() }
+pub open spec fn kdf_ok<K: crate::kdf::Kdf>() -> bool { 1 <= nh_of::<K::HashImpl>() <= 64 }
+pub open spec fn suite_ok<A: crate::aead::Aead, K: crate::kdf::Kdf>() -> bool {
+    aead_ok::<A>() && kdf_ok::<K>()
+    && nk_of::<A::AeadImpl>() <= 255 * nh_of::<K::HashImpl>()
+    && nn_of::<A::AeadImpl>() <= 255 * nh_of::<K::HashImpl>()
+}
+}
+
+verus!{
+// ---------------------------------------------------------------- std items missing from vstd
+pub assume_specification<T: Clone> [<[T]>::to_vec] (s: &[T]) -> (r: crate::Vec<T>)
+    ensures r@ == s@;
 }
